@@ -58,6 +58,24 @@ def probeSeesZombie (f : Family) (env : Env) : Bool :=
   | .aix => env.state != .gone                        -- /proc/<pid>/psinfo
   | .windows => false
 
+/-- Native process-status codes that mean "zombie" on each platform (sys/proc.h of the platform;
+    OpenBSD: `SZOMB` is declared but unused since 5.x, a real zombie is `SDEAD` — both are
+    reported as STATUS_ZOMBIE). Windows has no zombies. -/
+def zombieCodes (p : Platform) : List String :=
+  match p with
+  | .openbsd => ["SDEAD", "SZOMB"]
+  | .windows => []
+  | _ => ["SZOMB"]
+
+def documentedZombie (p : Platform) (code : String) : Bool := (zombieCodes p).contains code
+
+/-- the world the contract speaks about, from the native status code of the process
+    (`none`: the process is gone): a zombie iff the platform documents that code as zombie -/
+def docEnv (p : Platform) (pid : Nat) (status : Option String) (listed : Bool) : Env :=
+  ⟨pid, (match status with
+         | none => .gone
+         | some c => if documentedZombie p c then .zombie else .alive), listed⟩
+
 /-- the documented pid-0 exception -/
 def pid0Exception (f : Family) : Bool := f == .bsd || f == .sunos
 
